@@ -8,6 +8,9 @@ d = "/verif/seeded/%s" % sid
 meta = json.load(open(d + "/meta.json"))
 assert subprocess.run("git -C /repo status --porcelain", shell=True, capture_output=True, text=True).stdout.strip() == ""
 subprocess.run("git -C /repo apply %s/patch.diff" % d, shell=True, check=True)
+import shutil, tempfile
+keep = tempfile.mkdtemp(prefix="evid.")
+shutil.copytree("/verif/evidence", keep + "/evidence")
 caught = {}
 try:
     for p in props:
@@ -16,6 +19,9 @@ try:
         caught[p] = {"rc": r.returncode, "violations": keys[:8]}
 finally:
     subprocess.run("git -C /repo checkout -- .", shell=True)
+    shutil.rmtree("/verif/evidence", ignore_errors=True)
+    shutil.copytree(keep + "/evidence", "/verif/evidence")
+    shutil.rmtree(keep, ignore_errors=True)
 meta["caught_by"] = caught
 meta["detected"] = any(v["rc"] == 1 for v in caught.values())
 json.dump(meta, open(d + "/meta.json", "w"), indent=1)
